@@ -806,6 +806,20 @@ func (c *FnCtx) assumeImplementerFacts(st, old *State, ikey string, sig *types.S
 		if !types.Implements(t, it) {
 			continue
 		}
+		// only implementations the function being verified can name (its own package or a direct
+		// import): the facts are an optional strengthening, and contracts added in a dependent
+		// package must not change the obligations of the packages below it
+		if np := n.Obj().Pkg(); np != nil && c.pkg != nil && np != c.pkg.Types {
+			vis := false
+			for _, imp := range c.pkg.Types.Imports() {
+				if imp == np {
+					vis = true
+				}
+			}
+			if !vis {
+				continue
+			}
+		}
 		base := n.Obj().Pkg().Name() + "." + n.Obj().Name() + "." + mname
 		var keys []string
 		for k := range c.eng.contracts.Funcs {
